@@ -169,6 +169,22 @@ func c12Run(w *W) {
 			})
 			c.do("inproc.Listen", func() (interface{}, error) { return nil, s.Listen(a) })
 			c.do("inproc.Listen(dup)", func() (interface{}, error) { return nil, s.Listen(a) })
+			// a second listener object that fails for "address in use" and is
+			// closed again (ordinary tidy-up) leaves the first one accepting
+			if l2, err := s.NewListener(a, nil); err == nil {
+				r := c.do("l2.Listen(in use)", func() (interface{}, error) { return nil, l2.Listen() })
+				c.do("l2.Close", func() (interface{}, error) { return nil, l2.Close() })
+				if r.Returned() && r.Err != nil {
+					ps := w.Sock(peerKind[kind])
+					dc := c.do("peer.Dial(after the failed listener was closed)", func() (interface{}, error) {
+						return nil, ps.DialOptions(a, map[string]interface{}{mangos.OptionDialAsynch: false})
+					})
+					if dc.Returned() && dc.Err != nil {
+						w.Failf("C12/failed-listen-cleanup-broke-listener", "%s listens on %s; a second listener on the same address failed (%v) and was closed; now a peer dialling the address gets %v", kind, a, r.Err, dc.Err)
+					}
+					c.do("peer.Close", func() (interface{}, error) { return nil, ps.Close() })
+				}
+			}
 			w.Probe("err-inproc")
 		case 7: // timeouts / protocol errors on the data path
 			if canSend(kind) {
